@@ -145,6 +145,27 @@ def plan(tier):
     return plan0(tier) + plan_more(tier)
 
 
+def fn_bare(case):
+    """get_html_string() with no arguments = (indent 0, eol LF), for tags and for top-level lists; str() the same
+    when nothing needs expanding."""
+    from htmltools import TagList
+    viols = []
+    obj = build(case)
+    exp = ref_render_tag(deref(case), 0, "\n")
+    for how, got in (("get_html_string()", obj.get_html_string()), ("get_html_string(0)", obj.get_html_string(0)),
+                     ("get_html_string(eol=LF)", obj.get_html_string(eol="\n")), ("str()", str(obj))):
+        if got != exp:
+            viols.append(("layout-mismatch:defaults", f"{how} is not the layout for indent 0 and eol LF", {"observed": got, "expected": exp}))
+    kids = case[4]
+    tl = TagList(*[build(c) for c in kids])
+    expl = ref_render_list(kids, 0, "\n")
+    for how, got in (("TagList.get_html_string()", tl.get_html_string()), ("TagList.get_html_string(0)", tl.get_html_string(0)),
+                     ("str(TagList)", str(tl))):
+        if got != expl:
+            viols.append(("layout-mismatch:defaults:list", f"{how} is not the layout for indent 0 and eol LF", {"observed": got, "expected": expl}))
+    return (exp.count("\n") >= 2, None, viols, 7)
+
+
 def plan_more(tier):
     configs = (CONFIGS_QUICK if tier == "quick" else CONFIGS_THOROUGH) + EXTRA_EOL
     fn_tag = make_fn(configs)
@@ -153,7 +174,10 @@ def plan_more(tier):
     _, blkw = valid_trees(wsl, wsl, [I], [B], 1, 3)
     _, blkw1 = valid_trees(wsl[:4] + [T("a")], wsl[:4] + [T("a")], [I], [B], 1, 1)
     so = same_object_cases(3 if tier == "quick" else 4)
+    _, blkd = valid_trees(IL_RED, IL_RED + S_LEAVES[:1], [I, Vi], [B, Vb], 1, 3)
     return [
+        dict(kind="space", name="optional-arguments-left-out", space=only_elements(blkd), fn=fn_bare, execs=7,
+             note="get_html_string() / get_html_string(0) / eol only / str() on tags and top-level lists: indent 0, eol LF"),
         dict(kind="space", name="whitespace-only-text-children", space=only_elements(blkw), fn=fn_tag,
              note="text children consisting only of a blank, a tab, U+3000 or a line feed are text like any other: first "
                   "child, after a block sibling, inside runs (depth 1, fan-out <= 3)"),
